@@ -10,7 +10,7 @@ from ..astutil import call_attr, calls_in, guard_facts, unparse, walk_local
 from ..cfg import CFG
 from ..dataflow import reaching_defs, resolved_text
 from ..report import Finding, Report
-from ..srcindex import AnalysisError, Index
+from ..srcindex import AnalysisError, Index, raw_funcs
 
 RS = "xdsl/backend/register_stack.py"
 RA = "xdsl/backend/register_allocator.py"
@@ -283,6 +283,96 @@ def check_pool_keys(idx: Index, rep: Report) -> None:
                         raise AnalysisError(f"{m.fq}: key `{k}` of `{unparse(n)}` not understood")
 
 
+def check_stale_guard(idx: Index, rep: Report) -> None:
+    """A value that was already replaced by its allocated twin must not be allocated again (its uses were moved).
+    The guard `val in self.new_value_by_old_value` has to run before *every* allocation decision: in allocate_value
+    itself, or - when it sits in the overridable hook new_type_for_value - before any non-None answer of each override."""
+    from ..astutil import conjuncts
+
+    r = rep.rule("C19.R7", "the 'already replaced' guard precedes every allocation decision: in ValueAllocator.allocate_value, or in every override of new_type_for_value before it answers", floor=2)
+    av = idx.func(RA, "ValueAllocator.allocate_value")
+    cfg = CFG(av.node)
+    valp = av.node.args.args[1].arg
+    calls = [c for c in calls_in(av.node) if call_attr(c) == "new_type_for_value"]
+    if not calls:
+        raise AnalysisError(f"{av.fq}: call of new_type_for_value not found")
+
+    def guard_edge(c_: CFG, par: str):
+        def est(a_: int, b_: int, lab) -> bool:
+            e_ = c_.nodes[a_].ast
+            if e_ is None or lab not in ("T", "F") or not isinstance(e_, ast.expr):
+                return False
+            for atom, truth in conjuncts(e_, lab == "T"):
+                t_ = unparse(atom)
+                if t_ == f"{par} in self.new_value_by_old_value" and not truth:
+                    return True
+                if t_ == f"{par} not in self.new_value_by_old_value" and truth:
+                    return True
+            return False
+        return est
+
+    est0 = guard_edge(cfg, valp)
+    in_caller = all(cfg.path_avoiding(cfg.entry, cfg.node_of(c), lambda n: False, follow_exc=False, edge_ok=lambda a_, b_, lab: not est0(a_, b_, lab)) is None for c in calls)
+    if in_caller:
+        r.ok(av.fq, f"{av.loc} allocate_value returns for replaced values before asking new_type_for_value")
+    hooks = [f for mi in idx.modules.values() for f in raw_funcs(mi) if f.name == "new_type_for_value" and f.cls is not None]
+    if len(hooks) < 2:
+        raise AnalysisError("new_type_for_value: base definition and RISC-V override not both found")
+    for h in hooks:
+        if in_caller:
+            r.ok(h.fq, None)
+            continue
+        hc = CFG(h.node)
+        par = h.node.args.args[1].arg
+        est = guard_edge(hc, par)
+        bad = None
+        supers = {hc.node_of(c) for c in calls_in(h.node) if unparse(c.func) == "super().new_type_for_value"}
+        for rt in [x for x in walk_local(h.node) if isinstance(x, ast.Return) and x.value is not None and not (isinstance(x.value, ast.Constant) and x.value.value is None)]:
+            nr = hc.node_of(rt)
+            if nr in supers:
+                continue  # the answer is the parent's (guarded there)
+            if hc.path_avoiding(hc.entry, nr, lambda n: n.id in supers, follow_exc=False, edge_ok=lambda a_, b_, lab: not est(a_, b_, lab)) is not None:
+                bad = rt
+                break
+        if bad is None:
+            r.ok(h.fq, f"{h.loc} every answer is given after the 'already replaced' test")
+        else:
+            r.fail(h.fq, Finding("C19.R7", h.fq, "stale-guard-bypassed", f"`{unparse(bad)}` answers with a register without `{par} in self.new_value_by_old_value` having been tested (the guard is not in allocate_value any more, and this override returns before reaching the parent's test): a value that was already replaced - e.g. a constant 0 first allocated together with a loop-carried value and still listed in an earlier loop's live-ins - is allocated a second time and its definition gets another register than its uses", f"{h.module.relpath}:{bad.lineno}"))
+
+
+def check_register_scan(idx: Index, rep: Report) -> None:
+    """The registers that are pre-assigned or excluded anywhere in the function are collected before allocation; the
+    scan has to reach every nested operation (`region.walk()`).  A walk that does not descend into some operations
+    (e.g. those with recursive memory effects, whose summary is None as soon as one nested op has no effect trait)
+    misses registers that occur only inside them."""
+    r = rep.rule("C19.R8", "all_used_registers / all_excluded_registers scan every nested operation of the region", floor=2)
+    RAB = "xdsl/backend/register_allocatable.py"
+    for q in ("RegisterAllocatableOperation.all_used_registers", "RegisterAllocatableOperation.all_excluded_registers"):
+        f = idx.func(RAB, q)
+        reg = f.raw_node.args.args[0].arg
+        comps = [n for n in ast.walk(f.raw_node) if isinstance(n, (ast.SetComp, ast.GeneratorExp, ast.ListComp))]
+        fors = [n for n in ast.walk(f.raw_node) if isinstance(n, ast.For)]
+        iters = [g.iter for c in comps for g in c.generators[:1]] + [w.iter for w in fors[:1]]
+        if not iters:
+            raise AnalysisError(f"{f.fq}: scan of the region not found")
+        it = iters[0]
+        if unparse(it) == f"{reg}.walk()":
+            r.ok(f.fq, f"{f.loc} iterates {reg}.walk()")
+            continue
+        if isinstance(it, ast.Call) and isinstance(it.func, ast.Name):
+            h = idx.try_func(RAB, it.func.id)
+            if h is not None:
+                pruned = [n for n in walk_local(h.raw_node) if isinstance(n, ast.If) and any(isinstance(y, (ast.YieldFrom, ast.For)) or (isinstance(y, ast.Call) and call_attr(y) in ("walk", it.func.id, "extend")) for b_ in n.body + n.orelse for y in ast.walk(b_)) and re.search(r"has_trait|isinstance|get_effects|regions", unparse(n.test))]
+                full = any(isinstance(n, ast.Call) and call_attr(n) == "walk" for n in ast.walk(h.raw_node)) and not pruned
+                if pruned:
+                    r.fail(f.fq, Finding("C19.R8", f.fq, f"pruned-scan:{it.func.id}", f"`{unparse(it)}` descends into nested regions only under `{unparse(pruned[0].test)}`: registers pre-assigned or excluded only inside the operations that are skipped are not removed from the pool before allocation and are handed to other live values", f"{RAB}:{pruned[0].lineno}"))
+                    continue
+                if full:
+                    r.ok(f.fq, f"{f.loc} iterates {unparse(it)} (a full walk)")
+                    continue
+        raise AnalysisError(f"{f.fq}: iteration `{unparse(it)}` not understood")
+
+
 def check(idx: Index, rep: Report, tier: str) -> str:
     rep.run(check_frees, idx, rep)
     rep.run(check_stack, idx, rep)
@@ -290,6 +380,8 @@ def check(idx: Index, rep: Report, tier: str) -> str:
     rep.run(check_zero, idx, rep)
     rep.run(check_live_ins, idx, rep)
     rep.run(check_pool_keys, idx, rep)
+    rep.run(check_stale_guard, idx, rep)
+    rep.run(check_register_scan, idx, rep)
     return (
         "Ownership / guard / ordering rules over the register allocator: frees target only values defined by the operation, "
         "the register stack never makes reserved or non-allocatable registers available and reservations do not change "
